@@ -83,13 +83,24 @@ def _render_with_ovr(pid, c, fw="sylvia", style="echo", glue=""):
 e2.render_program = _render_with_ovr
 
 
+_CORPUS = {}
+
+
+def corpus(tier):
+    """(Corpus, [(overridden kinds, pid, Contract)]) — built once per process."""
+    if tier not in _CORPUS:
+        cp = e2.Corpus("override-" + tier)
+        progs = [(o, pid_of(o), program(o)) for o in subsets(tier)]
+        for over, pid, c in progs:
+            cp.add(pid, e2.render_program(pid, c, glue=e2.subject_impl(e2.basic_glue(c, None))))
+        cp.write()
+        cp.build()
+        _CORPUS[tier] = (cp, progs)
+    return _CORPUS[tier]
+
+
 def run_into(res, tier):
-    cp = e2.Corpus("override-" + tier)
-    progs = [(o, pid_of(o), program(o)) for o in subsets(tier)]
-    for over, pid, c in progs:
-        cp.add(pid, e2.render_program(pid, c, glue=e2.subject_impl(e2.basic_glue(c, None))))
-    cp.write()
-    cp.build()
+    cp, progs = corpus(tier)
     from .fam_reply import reply_doc
     cases, exp = [], []
     for over, pid, c in progs:
